@@ -278,11 +278,11 @@ func c10cancel(ip *interp.Interpreter, ev c10ev, nchan *int, before map[uint64]b
 // ---------------------------------------------------------------- generator
 
 type c10state struct {
-	anyCancel   bool // some evaluation was cancelled
-	sinceExec   bool // an Execute (Eval / EvalWithContext / redefinition) happened since the last cancel
-	sinceCtx    bool // an EvalWithContext happened since the last cancel (fresh cancellation channel)
+	anyCancel    bool // some evaluation was cancelled
+	sinceExec    bool // an Execute (Eval / EvalWithContext / redefinition) happened since the last cancel
+	sinceCtx     bool // an EvalWithContext happened since the last cancel (fresh cancellation channel)
 	execAfterCtx bool // the last Execute came after that EvalWithContext (root frame carries the fresh channel)
-	cloLive     bool // the function literal in Clo was created after the last cancel
+	cloLive      bool // the function literal in Clo was created after the last cancel
 }
 
 func (s *c10state) apply(ev c10ev) {
